@@ -1,14 +1,16 @@
 // vsched.cc — see vsched.h.  Compiled WITHOUT the vatomic pre-include.
 #include "vsched.h"
 
-#include <ucontext.h>
 #include <cstdio>
+#include <exception>
+#include <stdexcept>
 #include <cstdlib>
 #include <cstring>
 #include <ctime>
 #include <unordered_set>
 #include <unordered_map>
 #include <sys/mman.h>
+#include <unistd.h>
 
 extern "C" {
 void __sanitizer_start_switch_fiber(void **, const void *, size_t) __attribute__((weak));
@@ -25,7 +27,7 @@ const size_t StackSize = 256 * 1024;
 struct Point { int arity; int chosen; int altCost; };
 
 struct Proc {
-    ucontext_t ctx;
+    void *sp = nullptr;    // saved stack pointer while not running
     char *stack = nullptr;
     bool started = false, finished = false;
     std::function<bool()> waitPred;
@@ -39,7 +41,7 @@ struct Exec {
     std::vector<Proc> procs;
     int current = -1;          // process running or last run
     int running = -1;          // process whose context is active (-1: main)
-    ucontext_t mainCtx;
+    void *mainSp = nullptr;
     const void *mainStackBottom = nullptr; size_t mainStackSize = 0;
     void *mainFake = nullptr;
     std::vector<int> prefix;
@@ -56,6 +58,32 @@ struct Exec {
 
 Exec *E = nullptr;
 std::vector<char *> stackPool;
+
+// Minimal x86-64 context switch (callee-saved registers + stack pointer).  glibc's swapcontext()
+// makes a sigprocmask system call per switch, which dominated the run time.
+extern "C" void vs_switch(void **saveSp, void *newSp);
+asm(R"(
+    .text
+    .globl vs_switch
+    .type vs_switch,@function
+vs_switch:
+    pushq %rbp
+    pushq %rbx
+    pushq %r12
+    pushq %r13
+    pushq %r14
+    pushq %r15
+    movq %rsp, (%rdi)
+    movq %rsi, %rsp
+    popq %r15
+    popq %r14
+    popq %r13
+    popq %r12
+    popq %rbx
+    popq %rbp
+    ret
+    .size vs_switch,.-vs_switch
+)");
 
 inline uint64_t mix(uint64_t h, uint64_t v) {
     h ^= v + 0x9e3779b97f4a7c15ULL + (h << 6) + (h >> 2);
@@ -77,19 +105,30 @@ void switchToMain() {
     e.running = -1;
     void *fake = nullptr;
     if (__sanitizer_start_switch_fiber) __sanitizer_start_switch_fiber(&fake, e.mainStackBottom, e.mainStackSize);
-    swapcontext(&e.procs[me].ctx, &e.mainCtx);
+    vs_switch(&e.procs[me].sp, e.mainSp);
     if (__sanitizer_finish_switch_fiber) __sanitizer_finish_switch_fiber(fake, &e.mainStackBottom, &e.mainStackSize);
 }
 
-void procEntry(int id) {
+int startingProc = -1;
+
+void procEntry() {
     Exec &e = *E;
+    const int id = startingProc;
     if (__sanitizer_finish_switch_fiber) __sanitizer_finish_switch_fiber(nullptr, &e.mainStackBottom, &e.mainStackSize);
-    e.sc->procs[id]();
+    try {
+        e.sc->procs[id]();
+    } catch (const std::exception &ex) {
+        if (!e.violated) { e.violated = true; e.vmsg = std::string("uncaught exception in p") + std::to_string(id) + ": " + ex.what(); }
+    } catch (...) {
+        if (!e.violated) { e.violated = true; e.vmsg = "uncaught exception in p" + std::to_string(id); }
+    }
     e.procs[id].finished = true;
     e.running = -1;
     // final switch: no fake stack save => ASan destroys this fiber's fake stack
     if (__sanitizer_start_switch_fiber) __sanitizer_start_switch_fiber(nullptr, e.mainStackBottom, e.mainStackSize);
-    setcontext(&e.mainCtx);
+    void *dead;
+    vs_switch(&dead, e.mainSp);
+    abort();   // never resumed
 }
 
 void resume(int id) {
@@ -99,14 +138,17 @@ void resume(int id) {
     e.current = id;
     if (!p.started) {
         p.started = true;
-        getcontext(&p.ctx);
-        p.ctx.uc_stack.ss_sp = p.stack;
-        p.ctx.uc_stack.ss_size = StackSize;
-        p.ctx.uc_link = nullptr;
-        makecontext(&p.ctx, (void (*)())procEntry, 1, id);
+        startingProc = id;
+        // initial frame: 6 callee-saved registers, entry address, a null return address
+        uintptr_t top = ((uintptr_t)p.stack + StackSize) & ~(uintptr_t)15;
+        void **sp = (void **)top;
+        *--sp = nullptr;                 // fake return address of procEntry (keeps rsp%16 == 8 at entry)
+        *--sp = (void *)procEntry;
+        for (int i = 0; i < 6; ++i) *--sp = nullptr;
+        p.sp = sp;
     }
     if (__sanitizer_start_switch_fiber) __sanitizer_start_switch_fiber(&e.mainFake, p.stack, StackSize);
-    swapcontext(&e.mainCtx, &p.ctx);
+    vs_switch(&e.mainSp, p.sp);
     if (__sanitizer_finish_switch_fiber) __sanitizer_finish_switch_fiber(e.mainFake, nullptr, nullptr);
 }
 
